@@ -191,4 +191,906 @@ theorem isBinding_unique {V : Type} {fs : List String} {as : List V} {σ τ : St
       have := (h1 v b).2 ((h2 v b).1 ht)
       simp [hs] at this
 
+
+/-! ### `DefGateSequence::expand` -/
+
+theorem mapE_fixed_ok_iff (qs : List Qubit) (fs : List Nat) :
+    mapE fixedQubit qs = .ok fs ↔ qs = fs.map Qubit.fixed := by
+  rw [mapE_ok_iff]
+  induction qs generalizing fs with
+  | nil =>
+    constructor
+    · intro h; cases h; rfl
+    · intro h
+      cases fs with
+      | nil => exact .nil
+      | cons => simp at h
+  | cons q qs ih =>
+    constructor
+    · intro h
+      cases h with
+      | cons hq hrest =>
+        rename_i n fs'
+        have := (ih fs').1 hrest
+        cases q <;> simp [fixedQubit] at hq
+        subst hq; simp [this]
+    · intro h
+      cases fs with
+      | nil => simp at h
+      | cons n fs' =>
+        simp at h
+        obtain ⟨h1, h2⟩ := h
+        subst h1
+        exact .cons (by simp [fixedQubit]) ((ih fs').2 h2)
+
+theorem substQubit_ok_iff (qm : List (String × Qubit)) (q q' : Qubit) :
+    substQubit qm q = .ok q' ↔ ∃ v, q = Qubit.var v ∧ lookupLast qm v = some q' := by
+  cases q with
+  | fixed n => simp [substQubit]
+  | placeholder k => simp [substQubit]
+  | var v =>
+    simp only [substQubit]
+    cases h : lookupLast qm v with
+    | none => simp [h]
+    | some w => simp [h]
+
+theorem substGate_ok_iff (pm : List (String × Expr K)) (qm : List (String × Qubit)) (e b : Gate K) :
+    substGate pm qm e = .ok b ↔ ElemInstance (lookupLast pm) (lookupLast qm) e b := by
+  unfold substGate
+  constructor
+  · intro h
+    split at h
+    · cases h
+    · rename_i qs hqs
+      cases h
+      refine ⟨rfl, rfl, rfl, ?_⟩
+      exact pointwise_mono (fun a b hab => (substQubit_ok_iff qm a b).1 hab) ((mapE_ok_iff _ _ _).1 hqs)
+  · rintro ⟨h1, h2, h3, h4⟩
+    have := (mapE_ok_iff (substQubit qm) e.qubits b.qubits).2
+      (pointwise_mono (fun a b hab => (substQubit_ok_iff qm a b).2 hab) h4)
+    simp only [this]
+    cases b
+    simp_all
+
+theorem expandSeq_ok_iff (qvars : List String) (gates : List (Gate K)) (formals : List String)
+    (g : Gate K) (body : List (Gate K)) (hp : formals.length = g.params.length) :
+    expandSeq qvars gates (formals.zip g.params) g.qubits = .ok body ↔
+      ∃ (fs : List Nat) (σ : String → Option (Expr K)) (ρ : String → Option Qubit),
+        g.qubits.length = qvars.length ∧ g.qubits = fs.map Qubit.fixed ∧
+        IsBinding formals g.params σ ∧ IsBinding qvars g.qubits ρ ∧
+        Pointwise (ElemInstance σ ρ) gates body := by
+  unfold expandSeq
+  constructor
+  · intro h
+    split at h
+    · cases h
+    · rename_i hlen
+      have hlen' : g.qubits.length = qvars.length := by simpa using hlen
+      split at h
+      · cases h
+      · rename_i fs hfs
+        have hq := (mapE_fixed_ok_iff _ _).1 hfs
+        refine ⟨fs, lookupLast (formals.zip g.params), lookupLast (qvars.zip (fs.map Qubit.fixed)), hlen', hq,
+          isBinding_lookupLast _ _ hp, ?_, ?_⟩
+        · rw [hq]; exact isBinding_lookupLast _ _ (by rw [← hlen', hq])
+        · exact pointwise_mono (fun a b hab => (substGate_ok_iff _ _ a b).1 hab) ((mapE_ok_iff _ _ _).1 h)
+  · rintro ⟨fs, σ, ρ, hlen, hq, hσ, hρ, hpw⟩
+    have hne : ¬ (g.qubits.length ≠ qvars.length) := by simp [hlen]
+    simp only [hne, if_false]
+    have hfs := (mapE_fixed_ok_iff _ _).2 hq
+    simp only [hfs]
+    have e1 : σ = lookupLast (formals.zip g.params) := isBinding_unique hσ (isBinding_lookupLast _ _ hp)
+    have e2 : ρ = lookupLast (qvars.zip (fs.map Qubit.fixed)) := by
+      rw [hq] at hρ
+      exact isBinding_unique hρ (isBinding_lookupLast _ _ (by rw [← hlen, hq]))
+    subst e1; subst e2
+    exact (mapE_ok_iff _ _ _).2 (pointwise_mono (fun a b hab => (substGate_ok_iff _ _ a b).2 hab) hpw)
+
+
+/-! ### `gate_sequence_from_instruction` -/
+
+theorem gsfi_gate_undefined {defs : List (Def K)} {sel : String → Bool} {g : Gate K} {stack : List String}
+    (hf : findDef defs g.name = none) : gateSequenceFromInstruction defs sel (.gate g) stack = .ok none := by
+  simp [gateSequenceFromInstruction, hf]
+
+theorem gsfi_gate_other {defs : List (Def K)} {sel : String → Bool} {g : Gate K} {stack : List String} {d : Def K}
+    (hf : findDef defs g.name = some d) (hs : d.spec = .other) :
+    gateSequenceFromInstruction defs sel (.gate g) stack = .ok none := by
+  simp [gateSequenceFromInstruction, hf, hs]
+
+theorem gsfi_gate_seq {defs : List (Def K)} {sel : String → Bool} {g : Gate K} {stack : List String} {d : Def K}
+    {qvars : List String} {gates : List (Gate K)}
+    (hf : findDef defs g.name = some d) (hs : d.spec = .seq qvars gates) :
+    gateSequenceFromInstruction defs sel (.gate g) stack =
+      if sel g.name then
+        if d.params.length ≠ g.params.length then .error (.paramCount d.params.length g.params.length)
+        else if !g.mods.isEmpty then .error (.modifiers g.mods)
+        else if stack.contains d.name then .error (.cyclic stack)
+        else
+          match expandSeq qvars gates (d.params.zip g.params) g.qubits with
+          | .error e => .error e
+          | .ok gs => .ok (some (gs.map Instr.gate, d.name))
+      else .ok none := by
+  simp only [gateSequenceFromInstruction, hf, hs]
+  rfl
+
+theorem not_selected_of_undefined {defs : List (Def K)} {sel : String → Bool} {g : Gate K}
+    (hf : findDef defs g.name = none) : ¬ IsSelectedInvocation defs sel (.gate g) := by
+  rintro ⟨g', d', hg, hd, _⟩
+  cases hg; rw [hf] at hd; cases hd
+
+theorem not_selected_of_other {defs : List (Def K)} {sel : String → Bool} {g : Gate K} {d : Def K}
+    (hf : findDef defs g.name = some d) (hs : d.spec = .other) : ¬ IsSelectedInvocation defs sel (.gate g) := by
+  rintro ⟨g', d', hg, hd, ⟨qv, gs, hspec⟩, _⟩
+  cases hg; rw [hf] at hd; cases hd; rw [hs] at hspec; cases hspec
+
+theorem gsfi_none_iff (defs : List (Def K)) (sel : String → Bool) (i : Instr K) (stack : List String) :
+    gateSequenceFromInstruction defs sel i stack = .ok none ↔ ¬ IsSelectedInvocation defs sel i := by
+  cases i with
+  | other k => simp [gateSequenceFromInstruction, IsSelectedInvocation]
+  | gate g =>
+    cases hf : findDef defs g.name with
+    | none => simp [gsfi_gate_undefined hf, not_selected_of_undefined hf]
+    | some d =>
+      cases hs : d.spec with
+      | other => simp [gsfi_gate_other hf hs, not_selected_of_other hf hs]
+      | seq qvars gates =>
+        rw [gsfi_gate_seq hf hs]
+        by_cases hsel : sel g.name = true
+        · have : IsSelectedInvocation defs sel (.gate g) := ⟨g, d, rfl, hf, ⟨qvars, gates, hs⟩, hsel⟩
+          simp only [hsel, if_true, this, not_true, iff_false]
+          split
+          · simp
+          · split
+            · simp
+            · split
+              · simp
+              · split <;> simp
+        · have : ¬ IsSelectedInvocation defs sel (.gate g) := by
+            rintro ⟨g', d', hg, _, _, hs'⟩
+            cases hg; exact hsel hs'
+          simp [hsel, this]
+
+theorem gsfi_some_iff (defs : List (Def K)) (sel : String → Bool) (i : Instr K) (stack : List String)
+    (body' : List (Instr K)) (name : String) :
+    gateSequenceFromInstruction defs sel i stack = .ok (some (body', name)) ↔
+      ∃ g d body, i = .gate g ∧ Selected defs sel g d ∧ g.mods = [] ∧ d.name ∉ stack ∧
+        Instantiates d g body ∧ body' = body.map Instr.gate ∧ name = d.name := by
+  cases i with
+  | other k => simp [gateSequenceFromInstruction]
+  | gate g =>
+    cases hf : findDef defs g.name with
+    | none =>
+      rw [gsfi_gate_undefined hf]
+      constructor
+      · intro h; cases h
+      · rintro ⟨g', d', body, hg, ⟨hd, _⟩, _⟩
+        cases hg; rw [hf] at hd; cases hd
+    | some d =>
+      cases hs : d.spec with
+      | other =>
+        rw [gsfi_gate_other hf hs]
+        constructor
+        · intro h; cases h
+        · rintro ⟨g', d', body, hg, ⟨hd, ⟨qv, gs, hspec⟩, _⟩, _⟩
+          cases hg; rw [hf] at hd; cases hd; rw [hs] at hspec; cases hspec
+      | seq qvars gates =>
+        rw [gsfi_gate_seq hf hs]
+        by_cases hsel : sel g.name = true
+        · simp only [hsel, if_true]
+          by_cases hpc : d.params.length = g.params.length
+          · have hpc' : ¬ (d.params.length ≠ g.params.length) := by simp [hpc]
+            simp only [hpc', if_false]
+            by_cases hm : g.mods = []
+            · simp only [hm, List.isEmpty_nil, Bool.not_true, Bool.false_eq_true, if_false]
+              by_cases hst : d.name ∈ stack
+              · have : stack.contains d.name = true := by simpa using hst
+                simp only [this, if_true]
+                constructor
+                · intro h; cases h
+                · rintro ⟨g', d', body, hg, ⟨hd, _⟩, _, hns, _⟩
+                  cases hg; rw [hf] at hd; cases hd; exact absurd hst hns
+              · have : stack.contains d.name = false := by simpa using hst
+                simp only [this, Bool.false_eq_true, if_false]
+                constructor
+                · intro h
+                  split at h
+                  · cases h
+                  · rename_i gs hgs
+                    simp at h
+                    obtain ⟨hb, hn⟩ := h
+                    obtain ⟨fs, σ, ρ, h1, h2, h3, h4, h5⟩ := (expandSeq_ok_iff qvars gates d.params g gs hpc).1 hgs
+                    exact ⟨g, d, gs, rfl, ⟨hf, ⟨qvars, gates, hs⟩, hsel⟩, hm, hst,
+                      ⟨qvars, gates, fs, σ, ρ, hs, hpc.symm, h1, h2, h3, h4, h5⟩, hb.symm, hn.symm⟩
+                · rintro ⟨g', d', body, hg, ⟨hd, _, _⟩, _, _, hinst, hb, hn⟩
+                  cases hg; rw [hf] at hd; cases hd
+                  obtain ⟨qv', gs', fs, σ, ρ, hs', _, h1, h2, h3, h4, h5⟩ := hinst
+                  rw [hs] at hs'; cases hs'
+                  have := (expandSeq_ok_iff qvars gates d.params g body hpc).2 ⟨fs, σ, ρ, h1, h2, h3, h4, h5⟩
+                  simp [this, hb, hn]
+            · have : (!g.mods.isEmpty) = true := by
+                cases hgm : g.mods with
+                | nil => exact absurd hgm hm
+                | cons => simp
+              simp only [this, if_true]
+              constructor
+              · intro h; cases h
+              · rintro ⟨g', d', body, hg, _, hm', _⟩
+                cases hg; exact absurd hm' hm
+          · have hpc' : d.params.length ≠ g.params.length := hpc
+            rw [if_pos hpc']
+            constructor
+            · intro h; cases h
+            · rintro ⟨g', d', body, hg, ⟨hd, _, _⟩, _, _, hinst, _⟩
+              cases hg; rw [hf] at hd; cases hd
+              obtain ⟨_, _, _, _, _, _, hl, _⟩ := hinst
+              exact absurd hl.symm hpc
+        · simp only [hsel, Bool.false_eq_true, if_false]
+          constructor
+          · intro h; cases h
+          · rintro ⟨g', d', body, hg, ⟨_, _, hs'⟩, _⟩
+            cases hg; exact absurd hs' hsel
+
+
+/-! ### the loop: `expandWith` against `Expands` -/
+
+theorem gsfi_some_name {defs : List (Def K)} {sel : String → Bool} {i : Instr K} {stack : List String}
+    {body : List (Instr K)} {name : String}
+    (h : gateSequenceFromInstruction defs sel i stack = .ok (some (body, name))) :
+    name ∉ stack ∧ name ∈ defs.map (·.name) := by
+  obtain ⟨g, d, b, _, ⟨hf, _, _⟩, _, hns, _, _, hn⟩ := (gsfi_some_iff _ _ _ _ _ _).1 h
+  subst hn
+  exact ⟨hns, List.mem_map.2 ⟨d, (findDef_some hf).1, rfl⟩⟩
+
+theorem expands_nil_iff {defs : List (Def K)} {sel : String → Bool} {stack : List String} {out : List (Instr K)} :
+    Expands defs sel stack [] out ↔ out = [] := by
+  constructor
+  · intro h; cases h; rfl
+  · intro h; subst h; exact .nil _
+
+theorem expandWith_ok_iff (defs : List (Def K)) (sel : String → Bool)
+    (nested : List String → List (Instr K) → Outcome (List (Instr K))) (stack : List String)
+    (H : ∀ name body out, name ∉ stack → name ∈ defs.map (·.name) →
+      (nested (stack ++ [name]) body = .ok out ↔ Expands defs sel (stack ++ [name]) body out))
+    (src out : List (Instr K)) :
+    expandWith defs sel nested stack src = .ok out ↔ Expands defs sel stack src out := by
+  induction src generalizing out with
+  | nil => simp [expandWith, expands_nil_iff, eq_comm]
+  | cons i rest ih =>
+    simp only [expandWith]
+    cases hg : gateSequenceFromInstruction defs sel i stack with
+    | error e =>
+      simp only
+      constructor
+      · intro h; cases h
+      · intro h
+        cases h with
+        | keep hn _ => rw [(gsfi_none_iff _ _ _ _).2 hn] at hg; cases hg
+        | unfold hsel hm hns hinst _ _ =>
+          rw [(gsfi_some_iff _ _ _ _ _ _).2 ⟨_, _, _, rfl, hsel, hm, hns, hinst, rfl, rfl⟩] at hg; cases hg
+    | ok o =>
+      cases o with
+      | none =>
+        simp only
+        have hn := (gsfi_none_iff _ _ _ _).1 hg
+        constructor
+        · intro h
+          cases hr : expandWith defs sel nested stack rest with
+          | ok r =>
+            rw [hr] at h; simp at h; subst h
+            exact .keep hn ((ih r).1 hr)
+          | err e => rw [hr] at h; cases h
+          | outOfFuel => rw [hr] at h; cases h
+        · intro h
+          cases h with
+          | keep _ hrest => rw [(ih _).2 hrest]
+          | unfold hsel _ _ _ _ _ => exact absurd ⟨_, _, rfl, hsel⟩ hn
+      | some p =>
+        obtain ⟨body', name⟩ := p
+        simp only
+        obtain ⟨hns, hnd⟩ := gsfi_some_name hg
+        constructor
+        · intro h
+          obtain ⟨g, d, body, hi, hsel, hm, hns', hinst, hb, hname⟩ := (gsfi_some_iff _ _ _ _ _ _).1 hg
+          subst hi; subst hb; subst hname
+          cases hb : nested (stack ++ [d.name]) (body.map Instr.gate) with
+          | ok b =>
+            rw [hb] at h
+            cases hr : expandWith defs sel nested stack rest with
+            | ok r =>
+              rw [hr] at h; simp at h; subst h
+              exact .unfold hsel hm hns' hinst ((H _ _ _ hns hnd).1 hb) ((ih r).1 hr)
+            | err e => rw [hr] at h; cases h
+            | outOfFuel => rw [hr] at h; cases h
+          | err e => rw [hb] at h; cases h
+          | outOfFuel => rw [hb] at h; cases h
+        · intro h
+          cases h with
+          | keep hn _ => rw [(gsfi_none_iff _ _ _ _).2 hn] at hg; cases hg
+          | unfold hsel hm hns' hinst hbody hrest =>
+            rw [(gsfi_some_iff _ _ _ _ _ _).2 ⟨_, _, _, rfl, hsel, hm, hns', hinst, rfl, rfl⟩] at hg
+            simp at hg
+            obtain ⟨e1, e2⟩ := hg
+            subst e1; subst e2
+            rw [(H _ _ _ hns hnd).2 hbody, (ih _).2 hrest]
+
+theorem expandFuel_ok_iff (defs : List (Def K)) (sel : String → Bool) (fuel : Nat) (stack : List String)
+    (src out : List (Instr K)) (hf : remaining defs stack < fuel) :
+    expandFuel defs sel fuel stack src = .ok out ↔ Expands defs sel stack src out := by
+  induction fuel generalizing stack src out with
+  | zero => omega
+  | succ n ih =>
+    simp only [expandFuel]
+    apply expandWith_ok_iff
+    intro name body out' hns hnd
+    exact ih _ _ _ (by have := remaining_push_lt defs stack name hnd hns; omega)
+
+theorem expandWith_ne_outOfFuel (defs : List (Def K)) (sel : String → Bool)
+    (nested : List String → List (Instr K) → Outcome (List (Instr K))) (stack : List String)
+    (H : ∀ name body, name ∉ stack → name ∈ defs.map (·.name) → nested (stack ++ [name]) body ≠ .outOfFuel)
+    (src : List (Instr K)) :
+    expandWith defs sel nested stack src ≠ .outOfFuel := by
+  induction src with
+  | nil => simp [expandWith]
+  | cons i rest ih =>
+    simp only [expandWith]
+    cases hg : gateSequenceFromInstruction defs sel i stack with
+    | error e => simp
+    | ok o =>
+      cases o with
+      | none =>
+        simp only
+        cases hr : expandWith defs sel nested stack rest with
+        | ok r => simp
+        | err e => simp
+        | outOfFuel => exact absurd hr ih
+      | some p =>
+        obtain ⟨body', name⟩ := p
+        simp only
+        obtain ⟨hns, hnd⟩ := gsfi_some_name hg
+        cases hb : nested (stack ++ [name]) body' with
+        | ok b =>
+          simp only
+          cases hr : expandWith defs sel nested stack rest with
+          | ok r => simp
+          | err e => simp
+          | outOfFuel => exact absurd hr ih
+        | err e => simp
+        | outOfFuel => exact absurd hb (H _ _ hns hnd)
+
+theorem expandFuel_ne_outOfFuel (defs : List (Def K)) (sel : String → Bool) (fuel : Nat) (stack : List String)
+    (src : List (Instr K)) (hf : remaining defs stack < fuel) :
+    expandFuel defs sel fuel stack src ≠ .outOfFuel := by
+  induction fuel generalizing stack src with
+  | zero => omega
+  | succ n ih =>
+    simp only [expandFuel]
+    apply expandWith_ne_outOfFuel
+    intro name body hns hnd
+    exact ih _ _ (by have := remaining_push_lt defs stack name hnd hns; omega)
+
+
+/-! ### reachability (`has_path_connecting`) -/
+
+theorem mem_mentions_iff (defs : List (Def K)) (u v : String) : v ∈ mentions defs u ↔ Mentions defs u v := by
+  unfold mentions Mentions
+  cases hf : findDef defs u with
+  | none => simp
+  | some d =>
+    cases hs : d.spec with
+    | other =>
+      simp only [hs, List.not_mem_nil, false_iff]
+      rintro ⟨d', qv, gs, e, hd, hspec, _⟩
+      cases hd; rw [hs] at hspec; cases hspec
+    | seq qvars gates =>
+      simp only [hs, List.mem_filter, List.mem_map, List.contains_eq_mem, decide_eq_true_eq]
+      constructor
+      · rintro ⟨⟨e, he, hn⟩, hv⟩
+        exact ⟨d, qvars, gates, e, rfl, hs, he, hn, hv⟩
+      · rintro ⟨d', qv, gs, e, hd, hspec, he, hn, hv⟩
+        cases hd; rw [hs] at hspec; cases hspec
+        exact ⟨⟨e, he, hn⟩, hv⟩
+
+/-- a path all of whose nodes after the first lie in `A` -/
+inductive PathVia (defs : List (Def K)) (A : List String) : String → String → Prop
+  | refl (u) : PathVia defs A u u
+  | step {u v d} : Mentions defs u v → v ∈ A → PathVia defs A v d → PathVia defs A u d
+
+theorem reachIn_sound (defs : List (Def K)) (f : Nat) (A : List String) (u d : String)
+    (h : reachIn defs f A u d = true) : Reach defs u d := by
+  induction f generalizing A u with
+  | zero => simp [reachIn] at h
+  | succ n ih =>
+    simp only [reachIn, Bool.or_eq_true, beq_iff_eq, List.any_eq_true, Bool.and_eq_true] at h
+    rcases h with h | ⟨v, hv, _, hr⟩
+    · subst h; exact .refl _
+    · exact .step ((mem_mentions_iff _ _ _).1 hv) (ih _ _ hr)
+
+theorem pathVia_avoid {defs : List (Def K)} {A : List String} {x d : String} (h : PathVia defs A x d)
+    (v : String) : PathVia defs (A.filter (· != v)) x d ∨ PathVia defs (A.filter (· != v)) v d := by
+  induction h with
+  | refl u => exact .inl (.refl _)
+  | @step u' y d' hm hv _ ih =>
+    rcases ih with ih | ih
+    · by_cases hy : y = v
+      · subst hy; exact .inr ih
+      · exact .inl (.step hm (by simp [hv, hy]) ih)
+    · exact .inr ih
+
+theorem reachIn_complete (defs : List (Def K)) (f : Nat) (A : List String) (u d : String)
+    (h : PathVia defs A u d) (hf : A.length < f) : reachIn defs f A u d = true := by
+  induction f generalizing A u with
+  | zero => omega
+  | succ n ih =>
+    simp only [reachIn, Bool.or_eq_true, beq_iff_eq, List.any_eq_true, Bool.and_eq_true]
+    cases h with
+    | refl => exact .inl rfl
+    | @step _ v _ hm hv hrest =>
+      right
+      refine ⟨v, (mem_mentions_iff _ _ _).2 hm, by simpa using hv, ?_⟩
+      have hp : PathVia defs (A.filter (· != v)) v d := by
+        rcases pathVia_avoid hrest v with h | h <;> exact h
+      apply ih _ _ hp
+      have := filter_len_lt (fun x => x != v) (fun _ => true) (fun _ _ => rfl) A v hv rfl (by simp)
+      have e : (A.filter fun _ => true) = A := by simp
+      rw [e] at this
+      omega
+
+theorem reach_to_pathVia {defs : List (Def K)} {u d : String} (h : Reach defs u d) :
+    PathVia defs (seqNames defs) u d := by
+  induction h with
+  | refl u => exact .refl _
+  | @step _ _ _ hm _ ih =>
+    have hv := hm.choose_spec.choose_spec.choose_spec.choose_spec.2.2.2.2
+    exact .step hm hv ih
+
+theorem reach_iff (defs : List (Def K)) (u d : String) : reach defs u d = true ↔ Reach defs u d :=
+  ⟨reachIn_sound _ _ _ _ _, fun h => reachIn_complete _ _ _ _ _ (reach_to_pathVia h) (Nat.lt_succ_self _)⟩
+
+
+/-! ### errors -/
+
+theorem mapE_total {α β : Type} (f : α → Except Err β) (l : List α) (h : ∀ a ∈ l, ∃ b, f a = .ok b) :
+    ∃ bs, mapE f l = .ok bs := by
+  induction l with
+  | nil => exact ⟨[], rfl⟩
+  | cons a as ih =>
+    obtain ⟨b, hb⟩ := h a (by simp)
+    obtain ⟨bs, hbs⟩ := ih fun x hx => h x (by simp [hx])
+    exact ⟨b :: bs, by simp [mapE, hb, hbs]⟩
+
+theorem mapE_fixed_error_iff (qs : List Qubit) (e : Err) :
+    mapE fixedQubit qs = .error e ↔
+      ∃ (fs : List Nat) (q : Qubit) (post : List Qubit),
+        qs = fs.map Qubit.fixed ++ q :: post ∧ (∀ n, q ≠ Qubit.fixed n) ∧ e = .nonFixedQubit q := by
+  induction qs with
+  | nil =>
+    simp only [mapE]
+    constructor
+    · intro h; cases h
+    · rintro ⟨fs, q, post, h, _⟩
+      cases fs <;> simp at h
+  | cons q qs ih =>
+    simp only [mapE]
+    cases q with
+    | fixed n =>
+      simp only [fixedQubit]
+      cases hr : mapE fixedQubit qs with
+      | error e' =>
+        simp only
+        constructor
+        · intro h
+          cases h
+          obtain ⟨fs, q, post, h1, h2, h3⟩ := ih.1 hr
+          exact ⟨n :: fs, q, post, by simp [h1], h2, h3⟩
+        · rintro ⟨fs, q, post, h1, h2, h3⟩
+          cases fs with
+          | nil => simp at h1; exact absurd h1.1.symm (h2 n)
+          | cons n' fs' =>
+            simp at h1
+            have := ih.2 ⟨fs', q, post, h1.2, h2, h3⟩
+            rw [hr] at this; exact this
+      | ok fs0 =>
+        simp only
+        constructor
+        · intro h; cases h
+        · rintro ⟨fs, q, post, h1, h2, h3⟩
+          cases fs with
+          | nil => simp at h1; exact absurd h1.1.symm (h2 n)
+          | cons n' fs' =>
+            simp at h1
+            have := ih.2 ⟨fs', q, post, h1.2, h2, h3⟩
+            rw [hr] at this; cases this
+    | placeholder k =>
+      simp only [fixedQubit]
+      constructor
+      · intro h; cases h
+        exact ⟨[], .placeholder k, qs, by simp, by simp, rfl⟩
+      · rintro ⟨fs, q, post, h1, h2, h3⟩
+        cases fs with
+        | nil => simp at h1; rw [h3, ← h1.1]
+        | cons n' fs' => simp at h1
+    | var v =>
+      simp only [fixedQubit]
+      constructor
+      · intro h; cases h
+        exact ⟨[], .var v, qs, by simp, by simp, rfl⟩
+      · rintro ⟨fs, q, post, h1, h2, h3⟩
+        cases fs with
+        | nil => simp at h1; rw [h3, ← h1.1]
+        | cons n' fs' => simp at h1
+
+/-- the elements of a validated sequence always instantiate -/
+theorem substGates_total (pm : List (String × Expr K)) (qvars : List String) (fs : List Nat)
+    (gates : List (Gate K)) (hl : qvars.length = fs.length)
+    (hw : ∀ e ∈ gates, ∀ q ∈ e.qubits, ∃ v, q = Qubit.var v ∧ v ∈ qvars) :
+    ∃ bs, mapE (substGate pm (qvars.zip (fs.map Qubit.fixed))) gates = .ok bs := by
+  apply mapE_total
+  intro e he
+  unfold substGate
+  have : ∃ qs, mapE (substQubit (qvars.zip (fs.map Qubit.fixed))) e.qubits = .ok qs := by
+    apply mapE_total
+    intro q hq
+    obtain ⟨v, hv, hmem⟩ := hw e he q hq
+    subst hv
+    simp only [substQubit]
+    cases hl' : lookupLast (qvars.zip (fs.map Qubit.fixed)) v with
+    | some w => exact ⟨w, rfl⟩
+    | none =>
+      have := (lookupLast_zip_none qvars (fs.map Qubit.fixed) v (by simp [hl])).1 hl'
+      exact absurd hmem this
+  obtain ⟨qs, hqs⟩ := this
+  simp [hqs]
+
+theorem expandSeq_error_iff (qvars : List String) (gates : List (Gate K)) (pm : List (String × Expr K))
+    (qargs : List Qubit) (e : Err)
+    (hw : ∀ g ∈ gates, ∀ q ∈ g.qubits, ∃ v, q = Qubit.var v ∧ v ∈ qvars) :
+    expandSeq qvars gates pm qargs = .error e ↔
+      (qargs.length ≠ qvars.length ∧ e = .qubitCount qvars.length qargs.length) ∨
+      (qargs.length = qvars.length ∧ ∃ (fs : List Nat) (q : Qubit) (post : List Qubit),
+        qargs = fs.map Qubit.fixed ++ q :: post ∧ (∀ n, q ≠ Qubit.fixed n) ∧ e = .nonFixedQubit q) := by
+  unfold expandSeq
+  by_cases hlen : qargs.length = qvars.length
+  · have hne : ¬ (qargs.length ≠ qvars.length) := by simp [hlen]
+    rw [if_neg hne]
+    have hR : ((qargs.length ≠ qvars.length ∧ e = .qubitCount qvars.length qargs.length) ∨
+        (qargs.length = qvars.length ∧ ∃ (fs : List Nat) (q : Qubit) (post : List Qubit),
+          qargs = fs.map Qubit.fixed ++ q :: post ∧ (∀ n, q ≠ Qubit.fixed n) ∧ e = .nonFixedQubit q)) ↔
+        ∃ (fs : List Nat) (q : Qubit) (post : List Qubit),
+          qargs = fs.map Qubit.fixed ++ q :: post ∧ (∀ n, q ≠ Qubit.fixed n) ∧ e = .nonFixedQubit q := by
+      constructor
+      · rintro (⟨h, _⟩ | ⟨_, h⟩)
+        · exact absurd hlen h
+        · exact h
+      · intro h; exact .inr ⟨hlen, h⟩
+    rw [hR]
+    cases hf : mapE fixedQubit qargs with
+    | error e' =>
+      simp only
+      have := mapE_fixed_error_iff qargs e
+      rw [hf] at this
+      constructor
+      · intro h; cases h; exact this.1 rfl
+      · intro h; have := this.2 h; cases this; rfl
+    | ok fs =>
+      simp only
+      have hq := (mapE_fixed_ok_iff _ _).1 hf
+      obtain ⟨bs, hbs⟩ := substGates_total pm qvars fs gates (by rw [← hlen, hq]; simp) hw
+      rw [hbs]
+      constructor
+      · intro h; cases h
+      · intro h
+        have := (mapE_fixed_error_iff qargs e).2 h
+        rw [hf] at this; cases this
+  · have hne : qargs.length ≠ qvars.length := hlen
+    rw [if_pos hne]
+    constructor
+    · intro h; cases h; exact .inl ⟨hne, rfl⟩
+    · rintro (⟨_, h⟩ | ⟨h, _⟩)
+      · rw [h]
+      · exact absurd h hlen
+
+theorem gsfi_error_iff (defs : List (Def K)) (sel : String → Bool) (i : Instr K) (stack : List String) (e : Err)
+    (hw : WellFormed defs) :
+    gateSequenceFromInstruction defs sel i stack = .error e ↔ LocalErr defs sel stack i e := by
+  cases i with
+  | other k =>
+    simp only [gateSequenceFromInstruction]
+    constructor
+    · intro h; cases h
+    · intro h; cases h
+  | gate g =>
+    cases hf : findDef defs g.name with
+    | none =>
+      rw [gsfi_gate_undefined hf]
+      constructor
+      · intro h; cases h
+      · intro h
+        have : IsSelectedInvocation defs sel (.gate g) := by
+          cases h <;> exact ⟨_, _, rfl, ‹Selected defs sel g _›⟩
+        exact absurd this (not_selected_of_undefined hf)
+    | some d =>
+      cases hs : d.spec with
+      | other =>
+        rw [gsfi_gate_other hf hs]
+        constructor
+        · intro h; cases h
+        · intro h
+          have : IsSelectedInvocation defs sel (.gate g) := by
+            cases h <;> exact ⟨_, _, rfl, ‹Selected defs sel g _›⟩
+          exact absurd this (not_selected_of_other hf hs)
+      | seq qvars gates =>
+        have hsd : ∀ {d'}, Selected defs sel g d' → d' = d := by
+          intro d' h; have := hf.symm.trans h.1; simp at this; exact this.symm
+        have hwd := hw d (findDef_some hf).1 qvars gates hs
+        rw [gsfi_gate_seq hf hs]
+        by_cases hsel : sel g.name = true
+        · have hS : Selected defs sel g d := ⟨hf, ⟨qvars, gates, hs⟩, hsel⟩
+          simp only [hsel, if_true]
+          by_cases hpc : d.params.length = g.params.length
+          · have hpc' : ¬ (d.params.length ≠ g.params.length) := by simp [hpc]
+            simp only [hpc', if_false]
+            by_cases hm : g.mods = []
+            · simp only [hm, List.isEmpty_nil, Bool.not_true, Bool.false_eq_true, if_false]
+              by_cases hst : d.name ∈ stack
+              · have : stack.contains d.name = true := by simpa using hst
+                simp only [this, if_true]
+                constructor
+                · intro h; cases h; exact .cyclic hS hpc hm hst
+                · intro h
+                  cases h with
+                  | paramCount h1 h2 => cases hsd h1; exact absurd hpc h2
+                  | modifiers h1 _ h3 => exact absurd hm h3
+                  | cyclic _ _ _ _ => rfl
+                  | qubitCount h1 _ _ h4 _ _ => cases hsd h1; exact absurd hst h4
+                  | nonFixed h1 _ _ h4 _ _ _ _ => cases hsd h1; exact absurd hst h4
+              · have : stack.contains d.name = false := by simpa using hst
+                simp only [this, Bool.false_eq_true, if_false]
+                have key := expandSeq_error_iff qvars gates (d.params.zip g.params) g.qubits e hwd
+                constructor
+                · intro h
+                  have h' : expandSeq qvars gates (d.params.zip g.params) g.qubits = .error e := by
+                    split at h
+                    · rename_i e' he'; cases h; exact he'
+                    · cases h
+                  rcases key.1 h' with ⟨h1, h2⟩ | ⟨h1, fs, q, post, h2, h3, h4⟩
+                  · subst h2; exact .qubitCount hS hpc hm hst hs h1
+                  · subst h4; exact .nonFixed hS hpc hm hst hs h1 h2 h3
+                · intro h
+                  have h' : expandSeq qvars gates (d.params.zip g.params) g.qubits = .error e := by
+                    apply key.2
+                    cases h with
+                    | paramCount h1 h2 => cases hsd h1; exact absurd hpc h2
+                    | modifiers h1 _ h3 => exact absurd hm h3
+                    | cyclic h1 _ _ h4 => cases hsd h1; exact absurd h4 hst
+                    | qubitCount h1 _ _ _ h5 h6 =>
+                      cases hsd h1; rw [hs] at h5; cases h5
+                      exact .inl ⟨h6, rfl⟩
+                    | nonFixed h1 _ _ _ h5 h6 h7 h8 =>
+                      cases hsd h1; rw [hs] at h5; cases h5
+                      exact .inr ⟨h6, _, _, _, h7, h8, rfl⟩
+                  rw [h']
+            · have : (!g.mods.isEmpty) = true := by
+                cases hgm : g.mods with
+                | nil => exact absurd hgm hm
+                | cons => simp
+              simp only [this, if_true]
+              constructor
+              · intro h; cases h; exact .modifiers hS hpc hm
+              · intro h
+                cases h with
+                | paramCount h1 h2 => cases hsd h1; exact absurd hpc h2
+                | modifiers _ _ _ => rfl
+                | cyclic _ _ h3 _ => exact absurd h3 hm
+                | qubitCount _ _ h3 _ _ _ => exact absurd h3 hm
+                | nonFixed _ _ h3 _ _ _ _ _ => exact absurd h3 hm
+          · have hpc' : d.params.length ≠ g.params.length := hpc
+            rw [if_pos hpc']
+            constructor
+            · intro h; cases h; exact .paramCount hS hpc'
+            · intro h
+              cases h with
+              | paramCount h1 _ => cases hsd h1; rfl
+              | modifiers h1 h2 _ => cases hsd h1; exact absurd h2 hpc
+              | cyclic h1 h2 _ _ => cases hsd h1; exact absurd h2 hpc
+              | qubitCount h1 h2 _ _ _ _ => cases hsd h1; exact absurd h2 hpc
+              | nonFixed h1 h2 _ _ _ _ _ _ => cases hsd h1; exact absurd h2 hpc
+        · simp only [hsel, Bool.false_eq_true, if_false]
+          constructor
+          · intro h; cases h
+          · intro h
+            have : sel g.name = true := by
+              cases h <;> exact (‹Selected defs sel g _›).2.2
+            exact absurd this hsel
+
+
+theorem expands_single_keep {defs : List (Def K)} {sel : String → Bool} {stack : List String} {i : Instr K}
+    (hn : ¬ IsSelectedInvocation defs sel i) : Expands defs sel stack [i] [i] :=
+  .keep hn (.nil _)
+
+theorem expandWith_err_iff (defs : List (Def K)) (sel : String → Bool) (hw : WellFormed defs)
+    (nested : List String → List (Instr K) → Outcome (List (Instr K))) (stack : List String)
+    (Hok : ∀ name body out, name ∉ stack → name ∈ defs.map (·.name) →
+      (nested (stack ++ [name]) body = .ok out ↔ Expands defs sel (stack ++ [name]) body out))
+    (Herr : ∀ name body e, name ∉ stack → name ∈ defs.map (·.name) →
+      (nested (stack ++ [name]) body = .err e ↔ ErrAt defs sel (stack ++ [name]) body e))
+    (src : List (Instr K)) (e : Err) :
+    expandWith defs sel nested stack src = .err e ↔ ErrAt defs sel stack src e := by
+  induction src with
+  | nil =>
+    simp only [expandWith]
+    constructor
+    · intro h; cases h
+    · intro h; cases h
+  | cons i rest ih =>
+    simp only [expandWith]
+    cases hg : gateSequenceFromInstruction defs sel i stack with
+    | error e' =>
+      simp only
+      have hl := (gsfi_error_iff defs sel i stack e' hw).1 hg
+      constructor
+      · intro h; cases h; exact .here hl
+      · intro h
+        cases h with
+        | here hl' =>
+          have := (gsfi_error_iff defs sel i stack e hw).2 hl'
+          rw [hg] at this; cases this; rfl
+        | inside hsel hm hns hinst _ =>
+          rw [(gsfi_some_iff _ _ _ _ _ _).2 ⟨_, _, _, rfl, hsel, hm, hns, hinst, rfl, rfl⟩] at hg; cases hg
+        | later hex _ =>
+          cases hex with
+          | keep hn _ => rw [(gsfi_none_iff _ _ _ _).2 hn] at hg; cases hg
+          | unfold hsel hm hns hinst _ _ =>
+            rw [(gsfi_some_iff _ _ _ _ _ _).2 ⟨_, _, _, rfl, hsel, hm, hns, hinst, rfl, rfl⟩] at hg; cases hg
+    | ok o =>
+      cases o with
+      | none =>
+        simp only
+        have hn := (gsfi_none_iff _ _ _ _).1 hg
+        constructor
+        · intro h
+          cases hr : expandWith defs sel nested stack rest with
+          | ok r => rw [hr] at h; cases h
+          | err e' =>
+            rw [hr] at h; cases h
+            exact .later (expands_single_keep hn) (ih.1 hr)
+          | outOfFuel => rw [hr] at h; cases h
+        · intro h
+          cases h with
+          | here hl =>
+            have := (gsfi_error_iff defs sel i stack e hw).2 hl
+            rw [hg] at this; cases this
+          | inside hsel _ _ _ _ => exact absurd ⟨_, _, rfl, hsel⟩ hn
+          | later _ hrest => rw [ih.2 hrest]
+      | some p =>
+        obtain ⟨body', name⟩ := p
+        simp only
+        obtain ⟨hns, hnd⟩ := gsfi_some_name hg
+        obtain ⟨g, d, body, hi, hsel, hm, hns', hinst, hb, hname⟩ := (gsfi_some_iff _ _ _ _ _ _).1 hg
+        subst hi; subst hb; subst hname
+        have hgs : ∀ {d' body''}, Selected defs sel g d' → g.mods = [] → d'.name ∉ stack →
+            Instantiates d' g body'' → body''.map Instr.gate = body.map Instr.gate ∧ d'.name = d.name := by
+          intro d' body'' h1 h2 h3 h4
+          have := (gsfi_some_iff _ _ _ _ _ _).2 ⟨_, _, _, rfl, h1, h2, h3, h4, rfl, rfl⟩
+          rw [hg] at this
+          simp at this
+          exact ⟨this.1.symm, this.2.symm⟩
+        constructor
+        · intro h
+          cases hb : nested (stack ++ [d.name]) (body.map Instr.gate) with
+          | ok b =>
+            rw [hb] at h
+            cases hr : expandWith defs sel nested stack rest with
+            | ok r => rw [hr] at h; cases h
+            | err e' =>
+              rw [hr] at h; cases h
+              have hx := (Hok _ _ _ hns hnd).1 hb
+              have : Expands defs sel stack [.gate g] (b ++ []) := .unfold hsel hm hns' hinst hx (.nil _)
+              exact .later this (ih.1 hr)
+            | outOfFuel => rw [hr] at h; cases h
+          | err e' =>
+            rw [hb] at h; cases h
+            exact .inside hsel hm hns' hinst ((Herr _ _ _ hns hnd).1 hb)
+          | outOfFuel => rw [hb] at h; cases h
+        · intro h
+          cases h with
+          | here hl =>
+            have := (gsfi_error_iff defs sel _ stack e hw).2 hl
+            rw [hg] at this; cases this
+          | inside hsel' hm' hns'' hinst' hin =>
+            obtain ⟨e1, e2⟩ := hgs hsel' hm' hns'' hinst'
+            rw [e1, e2] at hin
+            rw [(Herr _ _ _ hns hnd).2 hin]
+          | later hex hrest =>
+            cases hex with
+            | keep hn _ => exact absurd ⟨_, _, rfl, hsel⟩ hn
+            | unfold hsel' hm' hns'' hinst' hbody _ =>
+              obtain ⟨e1, e2⟩ := hgs hsel' hm' hns'' hinst'
+              rw [e1, e2] at hbody
+              rw [(Hok _ _ _ hns hnd).2 hbody, ih.2 hrest]
+
+theorem expandFuel_err_iff (defs : List (Def K)) (sel : String → Bool) (hw : WellFormed defs) (fuel : Nat)
+    (stack : List String) (src : List (Instr K)) (e : Err) (hf : remaining defs stack < fuel) :
+    expandFuel defs sel fuel stack src = .err e ↔ ErrAt defs sel stack src e := by
+  induction fuel generalizing stack src e with
+  | zero => omega
+  | succ n ih =>
+    simp only [expandFuel]
+    apply expandWith_err_iff defs sel hw
+    · intro name body out hns hnd
+      exact expandFuel_ok_iff defs sel n _ _ _ (by have := remaining_push_lt defs stack name hnd hns; omega)
+    · intro name body e' hns hnd
+      exact ih _ _ _ (by have := remaining_push_lt defs stack name hnd hns; omega)
+
+/-- a misused invocation cannot also be unfolded or kept -/
+theorem localErr_not_expands {defs : List (Def K)} {sel : String → Bool} {stack : List String} {i : Instr K}
+    {e : Err} {rest out : List (Instr K)} (hl : LocalErr defs sel stack i e)
+    (hx : Expands defs sel stack (i :: rest) out) : False := by
+  have hsd : ∀ {g d d'}, Selected defs sel g d → Selected defs sel g d' → d = d' := by
+    intro g d d' h h'; have := h.1.symm.trans h'.1; simpa using this
+  cases hx with
+  | keep hn _ =>
+    apply hn
+    cases hl <;> exact ⟨_, _, rfl, ‹Selected defs sel _ _›⟩
+  | unfold hsel hm hns hinst _ _ =>
+    obtain ⟨qv, gs, fs, σ, ρ, hs, hp, hq, hfx, _⟩ := hinst
+    cases hl with
+    | paramCount h1 h2 => cases hsd hsel h1; exact h2 hp.symm
+    | modifiers _ _ h3 => exact h3 hm
+    | cyclic h1 _ _ h4 => cases hsd hsel h1; exact hns h4
+    | qubitCount h1 _ _ _ h5 h6 => cases hsd hsel h1; rw [hs] at h5; cases h5; exact h6 hq
+    | @nonFixed _ _ _ _ fs' q post h1 _ _ _ _ _ h7 h8 =>
+      rw [hfx] at h7
+      have hmem : q ∈ fs.map Qubit.fixed := by rw [h7]; simp
+      obtain ⟨n, _, hn⟩ := List.mem_map.1 hmem
+      exact h8 n hn.symm
+
+theorem expands_mem_split {defs : List (Def K)} {sel : String → Bool} {stack : List String}
+    {src out : List (Instr K)} (hx : Expands defs sel stack src out) {i : Instr K} (hi : i ∈ src) :
+    ∃ rest out', Expands defs sel stack (i :: rest) out' := by
+  induction hx with
+  | nil => simp at hi
+  | @keep stack j rest out hn hrest ih =>
+    cases hi with
+    | head => exact ⟨rest, _, .keep hn hrest⟩
+    | tail _ h => exact ih h
+  | @unfold stack g d body b rest out hsel hm hns hinst hb hrest _ ih =>
+    cases hi with
+    | head => exact ⟨rest, _, .unfold hsel hm hns hinst hb hrest⟩
+    | tail _ h => exact ih h
+
+/-- a reachable misuse rules out a successful expansion -/
+theorem bad_not_expands {defs : List (Def K)} {sel : String → Bool} {stack : List String} {src : List (Instr K)}
+    (hb : Bad defs sel stack src) : ∀ out, ¬ Expands defs sel stack src out := by
+  induction hb with
+  | here hi hl =>
+    intro out hx
+    obtain ⟨rest, out', hx'⟩ := expands_mem_split hx hi
+    exact localErr_not_expands hl hx'
+  | @inside stack src g d body hi hsel hm hns hinst _ ih =>
+    intro out hx
+    obtain ⟨rest, out', hx'⟩ := expands_mem_split hx hi
+    cases hx' with
+    | keep hn _ => exact hn ⟨_, _, rfl, hsel⟩
+    | unfold hsel' _ _ hinst' hbody _ =>
+      have e := hsel.1.symm.trans hsel'.1
+      simp at e; subst e
+      obtain ⟨qv, gs, fs, σ, ρ, hs, hp, a1, a2, a3, a4, a5⟩ := hinst
+      obtain ⟨qv', gs', fs', σ', ρ', hs', _, a1', a2', a3', a4', a5'⟩ := hinst'
+      rw [hs] at hs'; cases hs'
+      have e1 := (expandSeq_ok_iff qv gs _ _ _ hp.symm).2 ⟨fs, σ, ρ, a1, a2, a3, a4, a5⟩
+      have e2 := (expandSeq_ok_iff qv gs _ _ _ hp.symm).2 ⟨fs', σ', ρ', a1', a2', a3', a4', a5'⟩
+      rw [e1] at e2; cases e2
+      exact ih _ hbody
+
+theorem errAt_bad {defs : List (Def K)} {sel : String → Bool} {stack : List String} {src : List (Instr K)}
+    {e : Err} (h : ErrAt defs sel stack src e) : Bad defs sel stack src := by
+  induction h with
+  | here hl => exact .here (by simp) hl
+  | inside hsel hm hns hinst _ ih => exact .inside (by simp) hsel hm hns hinst ih
+  | later _ _ ih =>
+    cases ih with
+    | here hi hl => exact .here (by simp [hi]) hl
+    | inside hi hsel hm hns hinst hb => exact .inside (by simp [hi]) hsel hm hns hinst hb
+
 end QV.C20
